@@ -2,13 +2,13 @@ package main
 
 import (
 	"bufio"
-	"regexp"
 	"bytes"
 	"encoding/json"
 	"fmt"
 	"os"
 	"os/exec"
 	"path/filepath"
+	"regexp"
 	"strings"
 	"sync"
 	"time"
